@@ -54,10 +54,14 @@ func (m *MethodScope) resolveVarNameConflict(suggested string) string {
 		}
 
 		if n == 1 {
-			conflict, _ := m.searchVar(suggested)
-			conflict.Name += "1"
-			m.conflicted[suggested] = true
-			n++
+			// The variable which introduced the conflict might have been
+			// renamed in the meantime (ex: because of an import with the
+			// same name), in which case there is nothing to rename.
+			if conflict, ok := m.searchVar(suggested); ok {
+				conflict.Name += "1"
+				m.conflicted[suggested] = true
+				n++
+			}
 		}
 		return suggested + strconv.Itoa(n)
 	}
